@@ -946,6 +946,9 @@ class Verifier(Calls):
             return self.finish(res, t0, m)
         self.local_types = {}
         self._register_local_types()
+        budget = float(__import__('os').environ.get('PYVC_FN_BUDGET_S', '0') or 0)
+        self.deadline = (time.time() + budget) if budget > 0 else None
+        self.budget_hit = False
         self._outer_assigned = {n.id for n in ast.walk(fn) if isinstance(n, ast.Name) and isinstance(n.ctx, ast.Store)}
         try:
             self.run_function(c, m, fn)
@@ -974,7 +977,7 @@ class Verifier(Calls):
                 res['status'] = 'failed'
             elif any(o.verdict != 'unsat' for o in obs):
                 res['status'] = 'undecided'
-                res['reason'] = 'solver returned unknown'
+                res['reason'] = 'time budget per function exhausted' if self.budget_hit else 'solver returned unknown'
             elif self.exits == 0:
                 res['status'] = 'undecided'
                 res['reason'] = 'vacuous: no exit of the function is reachable under its precondition'
